@@ -159,8 +159,16 @@ def check_superdict(ck, col, kind, label, d, crys, chem, super_n, sd, warns, spe
                         "mapping": [None if m is None else [m[0], list(m[1].indexmap[0]), m[2]] for m in tmap.get(tag, ())]}
                 if stats["transitions"] in (1, 60) else None)
         rep = dict(rep0, tag=tag, initial=state(s0), final=state(s1))
+        nexp = 1 if (kind == "interstitial" or tag.startswith("omega0")) else 2
         for s, w in ((s0, "initial"), (s1, "final")):
             c_inv.append("invb %d %d %s" % (N, Nchem, nm(s))); m_inv.append(dict(rep, which=w))
+            # content of an endpoint: only the moving defects -- every other site holds its native species
+            oo = state(s)[0]
+            dsites = [n for n in range(N) if oo[n] != ref[n]]
+            if any(s.atomindices[n % s.N][0] != chem for n in dsites) or len(dsites) > nexp:   # (fewer when a too-small cell folds the defects onto each other)
+                col.violation("c29-endpoint-content", "%s %s: %s endpoint of %s differs from the defect-free reference at sites %s (expected "
+                              "at most %d defects, all on the sublattice of species %d)" % (label, super_n.tolist(), w, tag, dsites[:12], nexp, chem),
+                              dict(rep, which=w, differing_sites=dsites))
         diff = [n for n in range(N) if o0[n] != o1[n]]
         folded = False
         if len(diff) == 2 and (o0[diff[0]] == -1) != (o0[diff[1]] == -1):
@@ -288,7 +296,7 @@ def run(ck):
     from onsager import OnsagerCalc, crystal
     col = Collector(ck)
     stats = dict(states=0, transitions=0, mappings=0, mappings_none=0, states_folded=0, transitions_folded=0, warning_cells=0,
-                 cells_too_small=0, skipped_irrational=0, dictionaries=0, omega0_cross_wyckoff=0)
+                 cells_too_small=0, skipped_irrational=0, dictionaries=0, omega0_cross_wyckoff=0, multi_wyckoff_host_dictionaries=0)
     skipped = {"nonpercolating": 0, "construct-failed": 0, "too-many-states": 0}
     jobs = []
     ncalc = ck.n(3, 18)
@@ -307,6 +315,36 @@ def run(ck):
             sd = d.makesupercells(super_n)
         stats["dictionaries"] += 1
         jobs.append(check_superdict(ck, col, kind, name, d, crys, chem, super_n, sd, list(warns), spec, stats))
+    # interstitial calculators in hosts where ONE host chemistry occupies two or more inequivalent Wyckoff positions: every state and
+    # transition supercell must have every host site occupied by its native species (defectsb against the reference occupation)
+    def A_(*x): return np.array(x, dtype=float)
+    p4mm = crystal.Crystal(np.diag([1., 1., 1.3]), [[A_(0, 0, 0), A_(.5, .5, .35)], [A_(.5, .5, .8)]], chemistry=["A", "B"])
+    lieb = crystal.Crystal(np.eye(3), [[A_(0, 0, 0), A_(.5, 0, 0), A_(0, .5, 0), A_(0, 0, .5)]], chemistry=["A"])
+    hosts = [("P4mm host A(0,0,0)+A(1/2,1/2,0.35)+B + interstitial", p4mm.addbasis(p4mm.Wyckoffpos(A_(.5, 0, .6)), chemistry=["I"]), 2),
+             ("cubic corner+edge-centre host + body-centre interstitial", lieb.addbasis(lieb.Wyckoffpos(A_(.5, .5, .5)), chemistry=["I"]), 1)]
+    hosts += [("omega-like hexagonal host A(0,0,0)+A(1/3,2/3,1/2)+A(2/3,1/3,1/2) + interstitial",
+               (lambda h: h.addbasis(h.Wyckoffpos(A_(.5, 0, 0)), chemistry=["I"]))(
+                   crystal.Crystal(A_([.5, -np.sqrt(3) / 2, 0], [.5, np.sqrt(3) / 2, 0], [0, 0, .62]).T,
+                                   [[A_(0, 0, 0), A_(1. / 3, 2. / 3, .5), A_(2. / 3, 1. / 3, .5)]], chemistry=["Ti"])), 1)] if not ck.quick else []
+    for label, crys, chem in hosts:
+        nwy = max(len(crys.sitelist(c)) for c in range(crys.Nchem) if c != chem)
+        if nwy < 2: raise RuntimeError("host of %s has a single Wyckoff position per chemistry" % label)
+        net = gen.percolating_network(crys, chem, rng, maxjumps=60)
+        if net is None: skipped["nonpercolating"] += 1; continue
+        cut, sl, jn = net
+        d = OnsagerCalc.Interstitial(crys, chem, sl, jn)
+        for super_n in ([2 * np.eye(3, dtype=int)] if ck.quick else [2 * np.eye(3, dtype=int), np.diag([2, 2, 1])]):
+            if crys.N * abs(int(round(np.linalg.det(super_n)))) > 80: continue
+            spec = dict(label=label, lattice=crys.lattice.tolist(), basis=[[u.tolist() for u in b] for b in crys.basis], chem=chem,
+                        cutoff=cut, supercell=super_n.tolist())
+            with warnings.catch_warnings(record=True) as warns:
+                warnings.simplefilter("always")
+                sd = d.makesupercells(super_n)
+            stats["dictionaries"] += 1
+            stats["multi_wyckoff_host_dictionaries"] += 1
+            jobs.append(check_superdict(ck, col, "interstitial", label, d, crys, chem, super_n, sd, list(warns), spec, stats))
+    if stats["multi_wyckoff_host_dictionaries"] == 0:
+        raise RuntimeError("generator produced no interstitial calculator in a host with two Wyckoff positions of one chemistry")
     # vacancy-mediated calculators whose diffusing species occupies several Wyckoff positions, with a network that contains
     # jumps between inequivalent positions (omega0 endpoints then belong to different lone-vacancy states)
     def A(*x): return np.array(x, dtype=float)
@@ -421,7 +459,7 @@ def replay(ck, path):
     super_n = np.array(c["supercell"], dtype=int)
     col = Collector(ck)
     stats = dict(states=0, transitions=0, mappings=0, mappings_none=0, states_folded=0, transitions_folded=0, warning_cells=0,
-                 cells_too_small=0, skipped_irrational=0, dictionaries=0, omega0_cross_wyckoff=0)
+                 cells_too_small=0, skipped_irrational=0, dictionaries=0, omega0_cross_wyckoff=0, multi_wyckoff_host_dictionaries=0)
     with warnings.catch_warnings(record=True) as warns:
         warnings.simplefilter("always")
         try:
